@@ -159,7 +159,7 @@ do_line (const char *path, char *line)
         }
     } else if (!strcmp (mode, "ex16") && g.sa == 2) {
       /* every value of a 16-bit first operand; second operand from the boundary set */
-      int pass, npass = g.sb ? 6 : 1;
+      int pass, npass = g.sb ? (getenv ("H_EX16_PASSES") ? atoi (getenv ("H_EX16_PASSES")) : 1) : 1;
       for (pass = 0; pass < npass; pass++)
         for (i = 0; i < 256; i++) {
           orc_uint64 bfix = pick (&r, g.sb ? g.sb : 1, 0);
